@@ -68,7 +68,11 @@ func cmdProp(args []string) {
 	id := fs.String("id", "", "property id")
 	tier := fs.String("tier", "quick", "quick|thorough")
 	workers := fs.Int("j", 12, "parallel solver jobs")
+	evDir := fs.String("evidence", "", "directory for the evidence file and replays (default <verif>/evidence)")
 	fs.Parse(args)
+	if *evDir == "" {
+		*evDir = filepath.Join(*verif, "evidence")
+	}
 	t0 := time.Now()
 	seed := 0
 	fmt.Sscanf(os.Getenv("VERIF_SEED"), "%d", &seed)
@@ -76,10 +80,10 @@ func cmdProp(args []string) {
 	if *tier == "thorough" {
 		quickS, fullS = 10, 60
 	}
-	evPath := filepath.Join(*verif, "evidence", *id+".json")
+	evPath := filepath.Join(*evDir, *id+".json")
 	os.MkdirAll(filepath.Dir(evPath), 0o755)
 	os.Remove(evPath)
-	replayDir := filepath.Join(*verif, "evidence", "replay", *id)
+	replayDir := filepath.Join(*evDir, "replay", *id)
 	os.RemoveAll(replayDir)
 
 	e, err := LoadEngine(*repo, []string{"./..."})
